@@ -128,6 +128,39 @@ func c03Depths(tier string) (single, double int) {
 	return 3, 2
 }
 
+// c03SegCases emits the cut enumeration for one stream prefix + history.
+func c03SegCases(tier string, emit explore.Emit, letters []sletter, sh []int, prefix []byte, bounds []int, pname string, dDouble int) {
+	stream := append([]byte(nil), prefix...)
+	var names []string
+	for _, s := range sh {
+		bounds = append(bounds, len(stream)+5)
+		stream = append(stream, letters[s].Bytes...)
+		bounds = append(bounds, len(stream))
+		names = append(names, letters[s].Name)
+	}
+	n := len(stream)
+	desc := fmt.Sprintf("%s+%v (%d bytes)", pname, names, n)
+	add := func(cuts []int, maxSeg int) {
+		cuts = append([]int(nil), cuts...)
+		emit(explore.Case{Family: "segmentation", Size: len(sh)*10 + len(cuts),
+			Desc: func() any { return map[string]any{"stream": desc, "cuts": cuts, "max_read": maxSeg} },
+			Run:  func() explore.Result { return c03RunSeg(stream, cuts, maxSeg, desc) }})
+	}
+	add(nil, 1)
+	add(nil, 2)
+	for a := 1; a < n; a++ {
+		add([]int{a}, 0)
+	}
+	if len(sh) > 1 {
+		return
+	}
+	for a := 1; a < 40 && a < n; a++ {
+		for b := a + 1; b < 44 && b < n; b++ {
+			add([]int{a, b}, 0)
+		}
+	}
+}
+
 func c03EnumSeg(tier string, emit explore.Emit) {
 	letters := c03Letters()
 	dSingle, dDouble := c03Depths(tier)
@@ -135,6 +168,10 @@ func c03EnumSeg(tier string, emit explore.Emit) {
 	forShapes(len(letters), dSingle, func(sh []int) {
 		stream := append([]byte(nil), startup...)
 		bounds := []int{0, 4, len(startup)}
+		if len(sh) > 0 && len(sh) <= 2 && sh[0] == 0 {
+			// variant: the same history behind an SSLRequest that the server refuses with 'N'
+			c03SegCases(tier, emit, letters, sh, pgproto.Cat(pgproto.SSLRequest(), startup), []int{0, 4, 8, 12, 8 + len(startup)}, "SSLRequest+startup", dDouble)
+		}
 		var names []string
 		for _, s := range sh {
 			bounds = append(bounds, len(stream)+5)
@@ -228,6 +265,10 @@ func c03Surplus() []surplusPair {
 		{"CopyData outside COPY+body", pgproto.CopyData(nil), plus('d', nil)},
 		{"CopyDone+body", pgproto.CopyDone(), plus('c', nil)},
 		{"unknown type+body", pgproto.Msg('z', nil), plus('z', nil)},
+		{"oversized by 1", nil, pgproto.Msg('Q', bytes.Repeat([]byte{'o'}, c03Limit+1))},
+		{"oversized by 12", nil, pgproto.Msg('d', bytes.Repeat([]byte{'o'}, c03Limit+12))},
+		{"oversized 2x+5", nil, pgproto.Msg('B', bytes.Repeat([]byte{'o'}, 2*c03Limit+5))},
+		{"oversized 3x", nil, pgproto.Msg('Q', bytes.Repeat([]byte{'o'}, 3*c03Limit))},
 	}
 }
 
@@ -263,15 +304,17 @@ func c03RunIsolation(prefix []sletter, sp surplusPair) explore.Result {
 	}
 	// an empty-bodied message right behind it must not see the previous message's unread tail:
 	// a Query without any body has no query text at all (it is malformed), so no parser call can result
-	n0 := len(rec.Evs)
-	_, st = one.Step(pgproto.Msg('Q', nil))
-	if cb := cbSummary(rec.Evs[n0:]); len(cb) > 0 {
-		res.Fail("surplus-leaked", fmt.Sprintf("after %v + %s an EMPTY Query message reached the parser: %v (bytes of the previous message were read as its body)", names, sp.Name, cb))
-		return res
-	}
-	if st != memnet.Parked {
-		res.Outcome = "isolation"
-		return res // closing on the malformed empty Query is legitimate
+	if sp.Plain != nil { // (the oversized probes go straight to the Sync + Query check)
+		n0 := len(rec.Evs)
+		_, st = one.Step(pgproto.Msg('Q', nil))
+		if cb := cbSummary(rec.Evs[n0:]); len(cb) > 0 {
+			res.Fail("surplus-leaked", fmt.Sprintf("after %v + %s an EMPTY Query message reached the parser: %v (bytes of the previous message were read as its body)", names, sp.Name, cb))
+			return res
+		}
+		if st != memnet.Parked {
+			res.Outcome = "isolation"
+			return res // closing on the malformed empty Query is legitimate
+		}
 	}
 	out, _ := one.Step(pgproto.Sync())
 	if k := harness.Kinds(out); k != "Z" {
